@@ -542,9 +542,13 @@ func cmdStruct(args []string) {
 		case "field":
 			base["prog"] = s.Prog
 			base["full"], base["pnil"] = -1, -1
+			base["panic"] = false
 			for _, r := range byID[i] {
 				nExec++
 				v := -2
+				if r["panic"] == true {
+					base["panic"] = true
+				}
 				if r["panic"] != true {
 					v = litOf(r["out"].(map[string]any)["fs"].([]any)[0])
 				}
